@@ -476,17 +476,16 @@ def write_replay(pid, s, res, ob, tier, idx):
     path = os.path.join(d, "%s-%s-%d.txt" % (pid, re.sub(r"[^A-Za-z0-9_.-]", "_", s["id"]), idx))
     tr = trace_for(s, res, ob, tier) if idx <= 3 else "(trace omitted: more than 3 failing obligations in this run; re-run with --sets %s)" % s["id"]
     native_note = "no-failing-input-found"
-    hook = s.get("replay")
+    demos = s.get("demos")
     native_out = ""
-    if hook:
+    if demos:
         try:
-            sys.path.insert(0, os.path.join(VERIF, "engine"))
             import replay as replaymod
-            ok, native_out = replaymod.run(hook, tr, ob, s)
+            ok, native_out = replaymod.run(demos)
             if ok:
                 native_note = "native-replay-reproduced"
         except Exception as e:  # replay problems never mask the violation
-            native_out = "replay hook failed: %r" % (e,)
+            native_out = "native replay failed to run: %r" % (e,)
     with open(path, "w") as f:
         f.write("property: %s\nobligation set: %s (%s)\nfailed obligation: %s\nfunction: %s\nlocation: %s:%s\nsource line: %s\ndescription: %s\nkey: %s\nreplay: %s\n\n"
                 % (pid, s["id"], s.get("what", ""), ob["name"], ob["function"], ob["file"], ob["line"], ob.get("src", ""), ob["desc"], ob["key"], native_note))
@@ -638,6 +637,11 @@ def main(argv):
         if not a.sets:
             os.makedirs(os.path.dirname(ev_path), exist_ok=True)
             json.dump(ev, open(ev_path, "w"), indent=1)
+        try:
+            import replay as replaymod
+            replaymod.cleanup()
+        except Exception:
+            pass
         if a.keep:
             print("stage kept at", stage_dir)
         else:
